@@ -24,6 +24,7 @@ type UpRec struct {
 	UpID   uint64
 	Frame  []byte
 	Parsed *XFrame
+	H      *H1Msg
 	Act    Action
 	// reply frames this attempt produced (as sent by the upstream)
 	Sent [][]byte
@@ -31,10 +32,14 @@ type UpRec struct {
 
 // ReplyRec is one response frame a client received.
 type ReplyRec struct {
-	At     time.Duration
-	Frame  []byte
-	Parsed *XFrame
-	Tok    string // token header of the reply ("" if none)
+	At      time.Duration
+	Frame   []byte
+	Parsed  *XFrame // xprotocol
+	H       *H1Msg  // HTTP
+	Tok     string  // token header of the reply ("" if none)
+	Status  uint32
+	Success bool // protocol-level success status
+	Body    []byte
 }
 
 // ReqRec is the life of one downstream request.
@@ -44,8 +49,13 @@ type ReqRec struct {
 	ConnID   int
 	ID       uint64
 	Token    string
+	Method   string // HTTP
+	Target   string // HTTP request-target as sent
+	Queued   bool   // waiting for its turn on a ping-pong client connection
+	Dropped  bool   // never sent: the client had left or could not connect
 	Oneway   bool
 	Frame    []byte
+	HReq     *H1Msg        // HTTP: the message as built
 	SentAt   time.Duration // when the last byte was queued by the client
 	Script   []Action      // per attempt; last one repeats
 	Upstream []*UpRec
@@ -152,7 +162,7 @@ func (x *XClient) OnData(c *sim.Conn, b []byte) {
 			x.H.Stray = append(x.H.Stray, fmt.Sprintf("client %s received a reply for id=%d it never used (tok=%q status=%d)", x.Name, f.ID, tok, f.Status))
 			continue
 		}
-		r.Replies = append(r.Replies, &ReplyRec{At: x.S.Now(), Frame: fr, Parsed: f, Tok: tok})
+		r.Replies = append(r.Replies, &ReplyRec{At: x.S.Now(), Frame: fr, Parsed: f, Tok: tok, Status: f.Status, Success: f.Status == x.Codec.SuccessStatus(), Body: f.Body})
 	}
 }
 
@@ -200,7 +210,7 @@ type XUpstream struct {
 	ParseErr     error
 	done         []uint64 // ids of completed exchanges on this connection
 	IgnoreHB     bool
-	Wedged       bool // sent a partial frame: stays silent from then on
+	Wedged       bool     // sent a partial frame: stays silent from then on
 	Unknown      [][]byte // frames whose token is unknown (forwarded but never sent = fabrication)
 	InFlight     int      // requests received and not yet answered/abandoned (ping-pong oracle)
 	MaxInFlight  int
